@@ -35,9 +35,31 @@ def gen_case(rng):
     return case
 
 
+def has_finite(got):
+    return any(isinstance(v, float) and math.isfinite(v) and abs(v) > 1e-6 for v in _flat(got))
+
+
 def cases(ctx):
+    """equal shares of integrated k = 2/4/6 and differential k = 2/4; three quarters of every share are samples on which the
+    real code returns a finite error (the fractional powers of a negative cumulant give NaN on about half of all samples)"""
     n = 20 if ctx.quick else MAX_CASES
-    return [gen_case(ctx.rng) for _ in range(n)]
+    classes = [("int", 2), ("int", 4), ("int", 6), ("diff", 2), ("diff", 4)]
+    quota = {cl: n // len(classes) for cl in classes}
+    loose = {cl: quota[cl] // 4 for cl in classes}
+    out, tries = [], 0
+    while len(out) < n and tries < 40 * n:
+        tries += 1
+        c = gen_case(ctx.rng)
+        cl = (c["mode"], c["k"])
+        if quota[cl] <= 0:
+            continue
+        if not has_finite(run_impl(c)):
+            if loose[cl] <= 0:
+                continue
+            loose[cl] -= 1
+        quota[cl] -= 1
+        out.append(c)
+    return out
 
 
 # --------------------------------------------------------------------------------------------- real code
